@@ -1,8 +1,9 @@
 (* Handle.v — the buffered stream handle.  Mirrors src/internal/stream.rs:12-260
    (after the seek-negation, failed-refill and failed-flush fixes) and
-   stream_buffer.rs.  The handle is parameterised by nothing: it runs in the
-   state monad over the compound file, through Store.v. *)
-From Cfb.model Require Import Base Names DirEnt State Alloc Dir Mini Store.
+   stream_buffer.rs.  The handle is written over an abstract store (a state type
+   St with the three operations of stream.rs:276-500 and the length lookup of
+   Stream::new); Cfb.v instantiates it with Store.v over the compound file. *)
+From Cfb.model Require Import Base.
 From Cfb.gen Require Import Consts.
 Open Scope N_scope.
 
@@ -52,24 +53,40 @@ Record handle := mkHandle {
 Definition h_with_buf (h : handle) (b : sbuf) := mkHandle (h_id h) (h_total h) b (h_off h) (h_dirty h).
 Definition h_position (h : handle) : N := h_off h + b_pos (h_buf h).
 
+Section HandleOps.
+Variable St : Type.
+(* read_data id off buflen: the bytes of the stream from off, at most buflen *)
+Variable read_data : N -> N -> N -> St -> St * res (list byte).
+Variable write_data : N -> N -> list byte -> St -> St * res unit.
+Variable resize : N -> N -> St -> St * res unit.
+(* the stream length recorded in the directory entry (an unchecked index) *)
+Variable stream_len : N -> St -> St * res N.
+
 (* Stream::new *)
-Definition handle_new (id maxsz : N) : M handle :=
-  do e <- dir_entry id;
-  ret (mkHandle id (d_len e) (buf_new maxsz) 0 false).
+Definition handle_new (id maxsz : N) : St -> St * res handle := fun s =>
+  match stream_len id s with
+  | (s1, Ok len) => (s1, Ok (mkHandle id len (buf_new maxsz) 0 false))
+  | (s1, Err k) => (s1, Err k) | (s1, Panic p) => (s1, Panic p) | (s1, OutOfFuel) => (s1, OutOfFuel)
+  end.
 
 (* flush_changes: on failure the marker stays set *)
-Definition flush_changes (h : handle) : M handle :=
+Definition flush_changes (h : handle) : St -> St * res handle := fun s =>
   if h_dirty h then
-    write_data (h_id h) (h_off h) (buf_filled (h_buf h)) ;;
-    do e <- dir_entry (h_id h);
-    (if negb (d_len e =? h_total h) then panic 702 else ret tt) ;;   (* debug_assert_eq!(stream_len, total_len) *)
-    ret (mkHandle (h_id h) (h_total h) (h_buf h) (h_off h) false)
-  else ret h.
+    match write_data (h_id h) (h_off h) (buf_filled (h_buf h)) s with
+    | (s1, Ok _) =>
+      match stream_len (h_id h) s1 with
+      | (s2, Ok len) =>
+        if negb (len =? h_total h) then (s2, Panic 702)     (* debug_assert_eq!(stream_len, total_len) *)
+        else (s2, Ok (mkHandle (h_id h) (h_total h) (h_buf h) (h_off h) false))
+      | (s2, Err k) => (s2, Err k) | (s2, Panic p) => (s2, Panic p) | (s2, OutOfFuel) => (s2, OutOfFuel)
+      end
+    | (s1, Err k) => (s1, Err k) | (s1, Panic p) => (s1, Panic p) | (s1, OutOfFuel) => (s1, OutOfFuel)
+    end
+  else (s, Ok h).
 
 (* Operations return the handle as it is left even when they fail: a failed
    call has side effects on the handle (the window may have moved). *)
-Definition HM (A : Type) := cstate -> cstate * (handle * res A).
-Definition hlift {A} (h : handle) (m : M A) : HM A := fun s => let '(s', r) := m s in (s', (h, r)).
+Definition HM (A : Type) := St -> St * (handle * res A).
 
 (* fill_buf *)
 Definition h_fill_buf (h : handle) : HM (list byte) := fun s =>
@@ -156,7 +173,7 @@ Definition h_seek (h : handle) (w : whence) (z : Z) : HM N := fun s =>
 
 (* write *)
 Definition h_write (h : handle) (inp : list byte) : HM N := fun s =>
-  let finish (s' : cstate) (h' : handle) (bf : sbuf) (k : N) :=
+  let finish (s' : St) (h' : handle) (bf : sbuf) (k : N) :=
     if 0 <? k then
       (s', (mkHandle (h_id h') (N.max (h_total h') (h_off h' + b_cap bf)) bf (h_off h') true, Ok k))
     else (s', (h_with_buf h' bf, Ok k)) in
@@ -195,3 +212,5 @@ Definition h_flush (h : handle) : HM unit := fun s =>
   | (s1, Ok h1) => (s1, (h1, Ok tt))
   | (s1, r) => (s1, (h, match r with Ok _ => Panic 0 | Err k => Err k | Panic p => Panic p | OutOfFuel => OutOfFuel end))
   end.
+
+End HandleOps.
